@@ -38,8 +38,8 @@ PROPS = {
               "parallel line arrays grow and move together (G1).",
               "byte-for-byte equality of read-then-write (needs contents); line re-termination and "
               "sbuf capacity are decided under C05 (B3/B4)."),
-    "C02": _p(["W6", "S1", "S2", "S3", "N2", "W3", "W4", "N7", "S8"],
-              "ec_edit marks a buffer saved only after a read that returned 0, on an empty buffer, or on a fresh one (S8, every path from open() to lbuf_saved()); opening a new buffer recycles the slot bufs_findroom() picks only past a clean verdict of bufs_modified() for that very slot or a '!'/xwa bypass, the dirty edge failing the command (N7); the saved mark moves only in lbuf_saved (or to 'always dirty' in lbuf_unsaved), the "
+    "C02": _p(["W6", "S1", "S2", "S3", "N2", "W3", "W4", "N7", "S8", "W10"],
+              "no sign test (`< 0`, `>= 0`) is made on a value of unsigned type, so an error return can be seen (W10); ec_edit marks a buffer saved only after a read that returned 0, on an empty buffer, or on a fresh one (S8, every path from open() to lbuf_saved()); opening a new buffer recycles the slot bufs_findroom() picks only past a clean verdict of bufs_modified() for that very slot or a '!'/xwa bypass, the dirty edge failing the command (N7); the saved mark moves only in lbuf_saved (or to 'always dirty' in lbuf_unsaved), the "
               "dirty test is `seq of undo position != saved seq`, lbuf_saved bumps afterwards (S1); "
               "every top-level command bumps the command counter (S2); in ec_write the saved mark, "
               "mtime and rename happen only after lbuf_save's success edge, for the buffer's own "
@@ -50,8 +50,8 @@ PROPS = {
               "failed saves never reach those effects (W4).",
               "that sequence numbers line up across arbitrary undo/redo/save interleavings (the "
               "induction over histories is argued in DESIGN.md from S1+S2, not mechanised)."),
-    "C03": _p(["W3", "W4", "W5", "W6", "W8"],
-              "both overwrite guards (newer on disk; exists but foreign) sit on every path to "
+    "C03": _p(["W3", "W4", "W5", "W6", "W8", "W10"],
+              "no sign test (`< 0`, `>= 0`) is made on a value of unsigned type, so an error return can be seen (W10); both overwrite guards (newer on disk; exists but foreign) sit on every path to "
               "open() unless force, their comparisons have the right sense for ts in {-1,0,>0}, "
               "callers pair a path with its own timestamp (W5); every open/write/close/lbuf_wr/"
               "lbuf_save/ec_write failure is tested with a test that singles out failure and its "
@@ -68,11 +68,11 @@ PROPS = {
               "line command (S1,S2,S4).",
               "equality of texts along arbitrary undo/redo walks (argued by induction on the log "
               "in DESIGN.md, not mechanised); mark restoration."),
-    "C05": _p(["B1", "B2", "B3", "B4", "B5", "B6", "B7", "B9", "B10", "B11", "P1", "N2", "X2", "L2", "L4", "I1", "B12", "B13", "P2", "P3", "X9", "B14", "S7", "B15", "T9", "I2"],
-              "the input queue keeps 0 <= read position <= fill count <= its size at every exit of the functions that store either (I2, assumed by B1 for the push-back copy); every ex_pathexpand result is null-tested before it is dereferenced (B14); stored command text re-enters through ex_command only under a static nesting counter tested against a constant, raised before and lowered after ex_exec (S7); the in-place cut of the history register stays inside its block for hist 1..4 and old texts of 0..4 lines (B15, abstract evaluation with bounds-checked stores); uc_len/uc_code/uc_slen never step or read past the terminator, truncated sequences included, on every string <= 4 bytes of a representative alphabet (T9); no local alias of a block is used after the block was freed in the same function (P3); the pipe written inside cmd_pipe's poll loop is set non-blocking first (X9); every index into the saved-mark arrays of an undo record fits the smallest allocation of that array, loop bounds included (B12); functions handed (buffer, length) pairs keep every store, memcpy and snprintf within the length, given that every call site passes at most the array it owns (B13); no local keeps the current-buffer pointer across a call that can switch or free buffers (P2); the bounded-write clauses named in the anchors, each by a linear proof from the dominating guards (Fourier-Motzkin over the AST's conditions, for all values): writes into fixed arrays at the frozen guard-bounded sites - recording, push-back, repeat, tag stack, auto-indent, vi key stack (B1, guard must be in element units); every strcpy/strcat/sprintf into a fixed array against an interprocedural string-length bound, every snprintf size against its array (B2); every write through a freshly malloc'ed block against the allocation size, incl. line re-termination and the growth copies under the declared struct invariants (B3, I1); the string buffer keeps s_n + written + 1 <= s_sz for allocated and fresh buffers (B4); the 512-byte command gate dominates the three part copies and the copiers write at most one byte per byte read (B5); matcher out-arrays hold 2n ints and the \\\\digit index stays inside (B6); table-bounded loops fit their arrays (B7); every lbuf_get / reg_get result is null-tested, index-proved or given only to null-tolerant callees (B9, B10); the unchecked per-line mark accessors get 0 <= i < lbuf_len (B11); register text is not used across a call that can free it (P1); a successful address resolution is a range inside the buffer (X2); the literal matcher defines all group slots and never looks before the line (L2, L4).",
+    "C05": _p(["B1", "B2", "B3", "B4", "B5", "B6", "B7", "B9", "B10", "B11", "P1", "N2", "X2", "L2", "L4", "I1", "B12", "B13", "P2", "P3", "X9", "B14", "S7", "B15", "T9", "I2", "Q3"],
+              "only the function that reads the terminal lowers the fill count of the input queue, so pushed-back keys cannot postpone real input for ever (Q3); the input queue keeps 0 <= read position <= fill count <= its size at every exit of the functions that store either (I2, assumed by B1 for the push-back copy); every ex_pathexpand result is null-tested before it is dereferenced (B14); stored command text re-enters through ex_command only under a static nesting counter tested against a constant, raised before and lowered after ex_exec (S7); the in-place cut of the history register stays inside its block for hist 1..4 and old texts of 0..4 lines (B15, abstract evaluation with bounds-checked stores); uc_len/uc_code/uc_slen never step or read past the terminator, truncated sequences included, on every string <= 4 bytes of a representative alphabet (T9); no local alias of a block is used after the block was freed in the same function (P3); the pipe written inside cmd_pipe's poll loop is set non-blocking first (X9); every index into the saved-mark arrays of an undo record fits the smallest allocation of that array, loop bounds included (B12); functions handed (buffer, length) pairs keep every store, memcpy and snprintf within the length, given that every call site passes at most the array it owns (B13); no local keeps the current-buffer pointer across a call that can switch or free buffers (P2); the bounded-write clauses named in the anchors, each by a linear proof from the dominating guards (Fourier-Motzkin over the AST's conditions, for all values): writes into fixed arrays at the frozen guard-bounded sites - recording, push-back, repeat, tag stack, auto-indent, vi key stack (B1, guard must be in element units); every strcpy/strcat/sprintf into a fixed array against an interprocedural string-length bound, every snprintf size against its array (B2); every write through a freshly malloc'ed block against the allocation size, incl. line re-termination and the growth copies under the declared struct invariants (B3, I1); the string buffer keeps s_n + written + 1 <= s_sz for allocated and fresh buffers (B4); the 512-byte command gate dominates the three part copies and the copiers write at most one byte per byte read (B5); matcher out-arrays hold 2n ints and the \\\\digit index stays inside (B6); table-bounded loops fit their arrays (B7); every lbuf_get / reg_get result is null-tested, index-proved or given only to null-tolerant callees (B9, B10); the unchecked per-line mark accessors get 0 <= i < lbuf_len (B11); register text is not used across a call that can free it (P1); a successful address resolution is a range inside the buffer (X2); the literal matcher defines all group slots and never looks before the line (L2, L4).",
               "absence of all memory errors (indices that are matcher offsets, permutation values or display columns are named exceptions listed in the evidence notes), termination / bounded time, and the %d-only sprintf calls into the small terminal buffers (width depends on window geometry)."),
-    "C06": _p(["X1", "X2", "X3", "X4", "X5", "G3", "U1", "X6", "G7", "X7", "X8", "X9"],
-              "the filter pipe is non-blocking before the poll loop that feeds it (X9); a caller that reads the range on ex_region's failure path has initialised it (X8); append splices at (end, end), insert at (beg, beg) and change at (beg, end) of the range ex_region validated, on every path to the splice classified by the command letter it tested (X7); the shift of the numbered registers runs down to the register that receives the new text (G7); a write() that sends `total - done` bytes starts at `buf + done` (X6: the filter pipe resumes a partial write where it stopped); all 14 ex_region call sites test the result and the fail edge reaches only failing "
+    "C06": _p(["X1", "X2", "X3", "X4", "X5", "G3", "U1", "X6", "G7", "X7", "X8", "X9", "X10"],
+              "ex_region / ex_lineno read an address list as base plus all signed offsets, the last two addresses, `;` re-basing (X10, abstract evaluation on 18 address strings); the filter pipe is non-blocking before the poll loop that feeds it (X9); a caller that reads the range on ex_region's failure path has initialised it (X8); append splices at (end, end), insert at (beg, beg) and change at (beg, end) of the range ex_region validated, on every path to the splice classified by the command letter it tested (X7); the shift of the numbered registers runs down to the register that receives the new text (G7); a write() that sends `total - done` bytes starts at `buf + done` (X6: the filter pipe resumes a partial write where it stopped); all 14 ex_region call sites test the result and the fail edge reaches only failing "
               "returns with no effect on buffer, registers, marks or current line (address 0 "
               "tolerated only for a/i/c with both bounds 0) (X1); every path of ex_region to "
               "`return 0` establishes 0 <= beg <= end <= $ by the linear prover (X2); handlers "
@@ -80,16 +80,16 @@ PROPS = {
               "mark yields a value ex_region rejects and that differs from address 0 (X4); lines "
               "change only through the one logged splice primitive (U1).",
               "equality of resulting text, output and current line with the reference editor."),
-    "C07": _p(["V1", "V2", "V6", "T4"],
-              "no motion entry point (vi_motion, vi_motionln, all of mot.c) reaches a buffer "
+    "C07": _p(["V1", "V2", "V6", "T4", "V9"],
+              "lbuf_findchar finds the n-th occurrence in the effective direction for f/F/t/T and counts of either sign, t/T stopping one short (V9, abstract evaluation on two lines); no motion entry point (vi_motion, vi_motionln, all of mot.c) reaches a buffer "
               "mutator in the call graph with function-pointer parameters bound per call site "
               "(V2); every iteration of the vi loop passes vi_wfix before the final cursor "
               "placement, vi_wfix leaves the row in [0,max(0,$)] on every path (linear prover) and "
               "re-clamps the column off the terminator, and after a motion xoff is a ren_noeol "
               "value (V1).",
               "where a motion lands (behavioural, over runtime text)."),
-    "C09": _p(["V3", "V4", "T4", "B1", "I2", "Q1", "Q2"],
-              "term_push queues every key it is given or reports it to callers that look (Q2, abstract evaluation on a nearly full queue; open finding D42); what term_push leaves to be read is the pushed keys followed by the keys that were waiting, on every queue state evaluated (Q1, abstract evaluation with a modelled queue); the input queue keeps 0 <= read position <= fill count <= its size at every exit of the functions that store either (I2, assumed by B1 for the push-back copy); every case of the vi command switch (and every second key of g) whose calls reach "
+    "C09": _p(["V3", "V4", "T4", "B1", "I2", "Q1", "Q2", "V8"],
+              "the save of the key record for `.` is guarded only by values of the current loop iteration, never by a static or global (V8); term_push queues every key it is given or reports it to callers that look (Q2, abstract evaluation on a nearly full queue; open finding D42); what term_push leaves to be read is the pushed keys followed by the keys that were waiting, on every queue state evaluated (Q1, abstract evaluation with a modelled queue); the input queue keeps 0 <= read position <= fill count <= its size at every exit of the functions that store either (I2, assumed by B1 for the push-back copy); every case of the vi command switch (and every second key of g) whose calls reach "
               "lbuf_edit without crossing ex_command/undo/redo is a member of the string that "
               "gates the copy into the repeat buffer, and the repeat length is the copied length "
               "(V3).",
@@ -98,11 +98,11 @@ PROPS = {
     "C10": _p(["R4", "R5", "R6", "R9", "K4", "R11", "R12", "R13", "R14"],
               "under ignore-case a character matches a bracket range exactly when it or its other case lies in the range as written (R14, abstract evaluation of brk_match); an empty alternative stays an alternative (R9); the set matcher's own group counter agrees with the number of groups the parser builds, on every compiling pattern up to length 4/5 over ( ) [ ] \\\\ ^ : | * a and on all built-in patterns (R13); a parse error never leaves a compiled prefix, a repetition binds to exactly one character, on every pattern up to length 4 (quick) / 5 (thorough) over the metacharacter alphabet with a lead and a continuation byte (R11); the matching state is set afresh for every start position so a failed attempt cannot make a later one fail or report stale groups (R12); greedy / left-biased priority as a property of the fork instruction (a1 tried recursively, state restored from a copy, then a2) and of each of the four places that emit one (a1 -> the sub-pattern that follows, a2 -> after it / deferred / loop-back), alternation emits the left branch first (R4); the scan starts at the subject start, advances one decoded character and returns the first success (R5); each bracket class name denotes exactly the C-locale predicate's ASCII set (R6); every built-in pattern set needs at most NGRPS/2 groups by the repository's own group-count rule, so no alternative's marks are dropped and the reported index can be the matching one (K4).",
               "genuineness of matches, capture spans, completeness within the depth limit (behavioural over runtime strings; the proposed depth-limit counter hook is a runtime device and is not used)."),
-    "C17": _p(["K1", "K5", "B3", "T4"],
-              "the three width/bell range tables are sorted, disjoint and lo <= hi (bisection precondition), the shortcut thresholds in uc_isdw/uc_iszw do not exclude listed characters, find() agrees with the tables at every range boundary by abstract evaluation, widths are 0/1/2 (K1); pos[]/off[] allocations cover their writes (B3).",
+    "C17": _p(["K1", "K5", "B3", "T4", "V7"],
+              "pos_next / pos_prev return the minimum / maximum of the qualifying columns for every arrangement of up to four columns, probe and cur (V7, abstract evaluation); the three width/bell range tables are sorted, disjoint and lo <= hi (bisection precondition), the shortcut thresholds in uc_isdw/uc_iszw do not exclude listed characters, find() agrees with the tables at every range boundary by abstract evaluation, widths are 0/1/2 (K1); pos[]/off[] allocations cover their writes (B3).",
               "tiling and round-trip laws of the column mapping (behavioural)."),
-    "C18": _p(["O1", "O2", "K2", "K3", "B7", "T4"],
-              "the order array is written only by the identity initialisation over [0,n), the guarded terminator fixed point and an element swap whose loop runs while beg < end, and is inverted as off[pos[i]] = i (O1: necessary for `always a permutation`); every shaping form is, per the Unicode database, the isolated/initial/medial/final presentation form of the same letter, the table is strictly increasing for its bisection, and uc_cshape picks medial/final/initial/base by (join_prev, join_next) for every row x 25 neighbour contexts and never alters non-Arabic characters, by abstract evaluation (K2); direction-mark rows reference existing groups that fit subs[], dir/ctx in range (K3); the loops filling the pattern arrays are bounded by table lengths <= array sizes (B7).",
+    "C18": _p(["O1", "O2", "K2", "K3", "B7", "T4", "K6", "O3", "O4"],
+              "dir_context gives the documented base direction for td = -2..+2 and four kinds of first character (O4, abstract evaluation with the context patterns modelled); dir_fix reverses the whole match iff the context is right-to-left, the inner group iff the mark is, and recurses iff the mark is nested (O3, one loop iteration over all paths x sign cases); uc_shape hands the form table the nearest non-combining neighbours, none at the ends of the line (K6, abstract evaluation on short lines); the order array is written only by the identity initialisation over [0,n), the guarded terminator fixed point and an element swap whose loop runs while beg < end, and is inverted as off[pos[i]] = i (O1: necessary for `always a permutation`); every shaping form is, per the Unicode database, the isolated/initial/medial/final presentation form of the same letter, the table is strictly increasing for its bisection, and uc_cshape picks medial/final/initial/base by (join_prev, join_next) for every row x 25 neighbour contexts and never alters non-Arabic characters, by abstract evaluation (K2); direction-mark rows reference existing groups that fit subs[], dir/ctx in range (K3); the loops filling the pattern arrays are bounded by table lengths <= array sizes (B7).",
               "that swap ranges stay inside the line (matcher offsets) and the reversal semantics of runs (behavioural)."),
     "C12": _p(["L1", "L2", "L3", "L4", "L5", "T4", "M2", "L6"],
               "every literal-path return of rstr_find is reachable only when the pattern has no compiled set (L6); resumed at an interior offset with the left-context flag, the fast path, the engine started there and the engine on the whole line give the same first match on all lines of length <= 3 (L5); every caller that resumes inside a line passes that flag and the caller working on a copied run does not (M2); the fast path accepts an offset exactly when the engine's own RA_WBEG / RA_WEND atoms accept it, on every line of length <= 3 over {word, '-', blank}, and folds case exactly as the engine's literal atom does on every byte against its 0x20-neighbours (L5); every byte the regex parser treats as an operator (case labels, strchr sets and comparisons of the parser functions) stops the literal classifier's scan, so a pattern with an operator is never a literal (L1); a literal match stores all 2n group slots, groups >= 1 as unset, and the set matcher fills all slots whenever it returns >= 0 (L2); the two word predicates agree on all 255 byte values by abstract evaluation (L3); the word-boundary tests never read before the subject (linear proof at each look-behind read) (L4).",
